@@ -71,6 +71,7 @@ type allocCase struct {
 	MaxHold  int      `json:"max_hold"`
 	Profile  string   `json:"profile"`
 	Procs    int      `json:"processes"`
+	Exact    bool     `json:"exact_fit_mapping"`
 	SeedUsed int64    `json:"seed"`
 }
 
@@ -100,10 +101,14 @@ const (
 	opFailedAlloc
 )
 
-func allocLayoutSize(slots, sizes []uint32) int {
+// exact: the mapping ends exactly where the last slot ends (a legal, if unusual, size); otherwise 64 bytes of slack follow
+func allocLayoutSize(slots, sizes []uint32, exact bool) int {
 	n := bufferManagerHeaderSize
 	for i := range slots {
 		n += int(countBufferListMemSize(slots[i], sizes[i]))
+	}
+	if exact {
+		return n
 	}
 	return n + 64
 }
@@ -898,7 +903,7 @@ var allocProfiles = []allocProfile{
 
 func genAllocCase(c *checkCtx, idx int, regime string, long bool) allocCase {
 	rng := caseRand(c.seed, idx)
-	cs := allocCase{Idx: idx, Regime: regime, Backend: "heap", Procs: 1}
+	cs := allocCase{Idx: idx, Regime: regime, Backend: "heap", Procs: 1, Exact: idx%2 == 1}
 	nclass := 1 + rng.Intn(2)
 	sizeChoices := []uint32{8, 16, 24, 64, 100, 256}
 	s0 := sizeChoices[rng.Intn(3)]
@@ -962,7 +967,7 @@ func mapShared(size int) ([]byte, int, error) {
 }
 
 func runAllocCase(c *checkCtx, cs allocCase) allocResult {
-	size := allocLayoutSize(cs.Slots, cs.Sizes)
+	size := allocLayoutSize(cs.Slots, cs.Sizes, cs.Exact)
 	var mem []byte
 	var fd = -1
 	if cs.Backend == "heap" {
